@@ -350,8 +350,17 @@ def run_case_spec(ctx, case):
   ctx.case((spec, driver, case['W'], case.get('K'), case.get('ibs'), case.get('buf'),
             case.get('with_pool'), case.get('maxpar')), nontrivial)
   if exc is not None:
+    chain, e = [], exc
+    while e is not None and len(chain) < 5:
+      chain.append(f'{type(e).__name__}: {str(e)[:300]}')
+      e = e.__cause__ or e.__context__
+    # A fault-free run has no injected deadline; a DEADLINE status can only be the
+    # real-time deadline of the stand-in transport expiring under machine load.
+    if any('Deadline Exceeded' in c or 'All workers timeout' in c for c in chain):
+      ctx.inconclusive_case('fault-free run hit a real-time deadline of the stand-in transport (load)', case)
+      return
     ctx.violation('distributed_run_raised', case,
-                  {'error': f'{type(exc).__name__}: {str(exc)[:300]}'},
+                  {'error': chain[0], 'cause_chain': chain[1:]},
                   mechanism=f'{driver}-raises:{type(exc).__name__}')
     return
   outs, aggs, acquired = res
